@@ -15,7 +15,7 @@ FIX_COMMITS = ['c5b9684 (C05 DataReader EOD==0)', 'c3bb002 (C17 ESC prefix on 1x
                '891cd1e + b47e514 (C14 unbounded TLS handshake, server and tls_immediately relay client)',
                '02ec277 (C10 code-only reply line rejected)', 'e83b33d (C08 authentication survives STARTTLS)',
                'ca9b539 (C13 configured bounce queue ignored)', 'd276ab6 (C07/C02/C06 RCPT answered 251 dropped)', '85019a2 (C07 edge keeps the rejected transaction)',
-               '9795c05 (C07 session torn down after a non-UTF-8 argument)', '1f3e369 (C11 X-Smtp-Reply with command parameter)',
+               '9795c05 (C07 session torn down after a non-UTF-8 argument; refined by bc3c258)', '1f3e369 (C11 X-Smtp-Reply with command parameter)',
                '9b39673 + 9263ee9 (C06 WsgiEdge loses the reply: bytes command, multi-line message)',
                '7526a46 (C03/C13 repeated recipient address settled only once)', '2ebabf2 (C17 newline_first replies not parsed back)',
                'ed68b2b + 5b0622d + 97a73d4 (C18 lax v1 ports, unassigned v2 command/transport, LOCAL with short block)',
